@@ -67,7 +67,9 @@ def run(tier):
     vd.lap("generate")
     # 2a. sanitizer build: memory errors, UB, leaks; the lifecycle hook aborts at the faulty call
     os.environ.update({k: v for k, v in san_env().items() if k.endswith("SAN_OPTIONS")})
+    os.environ["ZWDRV_LEAK_EVERY"] = "40"
     res = zw.run_driver(os.path.join(san, "bin", "zwdrv"), cmds, wd, tag="san")
+    os.environ["ZWDRV_LEAK_EVERY"] = "1"
     byid = {r.get("id"): r for r in res}
     leaks = []
     for i, (kind, p) in enumerate(meta):
@@ -81,7 +83,8 @@ def run(tier):
                    ("sanitizer report" if "Sanitizer" in err or "runtime error" in err else "crash")
             vd.observe("%s on `%s'" % (what, p), {"kind": kind, "program": p, "observed": r})
         elif r.get("leak"):
-            leaks.append(i)
+            # somewhere in the window of the last 40 commands
+            leaks.extend(range(max(0, i - 39), i + 1))
     # a leak is attributed to a command only if an isolated run of that command leaks
     seenp = set()
     for i in leaks:
